@@ -32,6 +32,20 @@ package main
 //                                    par: every gun shoots its share in its own goroutine, the recorded requests are
 //                                    reported sorted (the model sorts its prediction alike)
 //   6th field of an entry            minor version of the request line of a raw entry (HTTP/1.<minor>) [1]
+// Round 2: time and the transport's options
+//   gap=<ms> [0]                     pause before every shot but the first (seq: between consecutive shots of the case; par: between
+//                                    consecutive shots of each gun)
+//   idle=<ms>|- hs=<ms>|def|- rht=<ms>|- mic=<n>|- mich=<n>|-   the gun options idle-conn-timeout, tls-handshake-timeout,
+//                                    response-header-timeout, max-idle-conns, max-idle-conns-per-host, set BY NAME in the gun's config
+//                                    (`-` = not given; for hs `-` = the harness's generous 20s, `def` = not given: pandora's default)
+//   lay=0|1|2|3 [0]                  layout of the ammo file, invisible on the wire: 1 = blank lines between the entries and blanks around
+//                                    every line, 2 = no newline at the end of the file, 3 = CRLF line ends (uri, uripost, raw) resp.
+//                                    pretty-printed multi-line JSON (http/json)
+//   delay=<ms> [0]                   the target waits that long before it answers
+//   code=<status> [200]              status of the target's answer
+// The observation carries tm=ok|late: `late` when the machine was too slow for the case's timing margins (a pause that should stay
+// below the idle timeout took more than 60% of it, an answer that should beat the response-header timeout took more than 60% of it);
+// such a case is inconclusive for the model driver, never a failure.
 // uri/uripost entries with an odd index carry a tag after the URI (it never reaches the wire).
 
 import (
@@ -121,6 +135,19 @@ type caseIn struct {
 	rsp     string // response body size, or "redir"
 	mode    string // seq | par
 	sched   []int
+
+	gap, delay           int    // ms
+	idle, hs, rht        string // ms | "-" (hs also "def")
+	mic, mich            string // n | "-"
+	code                 int
+	lay                  int
+}
+
+func optOr(s string) string {
+	if s == "" {
+		return "-"
+	}
+	return s
 }
 
 func hx(s string) string { return hex.EncodeToString([]byte(s)) }
@@ -167,8 +194,21 @@ func encodeCase(c caseIn) string {
 	if mode == "" {
 		mode = "seq"
 	}
-	return fmt.Sprintf("kind=run gun=%s fmt=%s ssl=%s srv=%s ka=%s inst=%d tgt=%s passes=%d pre=%s rsp=%s mode=%s sched=%s conf=%s ents=%s",
-		gun, c.format, b(c.ssl), c.srv, b(c.ka), c.inst, c.tgt, c.passes, b(c.preload), rsp, mode, strings.Join(sc, "."),
+	timing := ""
+	if c.gap != 0 || c.delay != 0 || optOr(c.idle) != "-" || optOr(c.hs) != "-" || optOr(c.rht) != "-" || optOr(c.mic) != "-" ||
+		optOr(c.mich) != "-" || (c.code != 0 && c.code != 200) {
+		code := c.code
+		if code == 0 {
+			code = 200
+		}
+		timing = fmt.Sprintf(" gap=%d idle=%s hs=%s rht=%s mic=%s mich=%s delay=%d code=%d", c.gap, optOr(c.idle), optOr(c.hs), optOr(c.rht),
+			optOr(c.mic), optOr(c.mich), c.delay, code)
+	}
+	if c.lay != 0 {
+		timing += fmt.Sprintf(" lay=%d", c.lay)
+	}
+	return fmt.Sprintf("kind=run gun=%s fmt=%s ssl=%s srv=%s ka=%s inst=%d tgt=%s passes=%d pre=%s rsp=%s mode=%s sched=%s%s conf=%s ents=%s",
+		gun, c.format, b(c.ssl), c.srv, b(c.ka), c.inst, c.tgt, c.passes, b(c.preload), rsp, mode, strings.Join(sc, "."), timing,
 		strings.Join(cs, ";"), strings.Join(es, "|"))
 }
 
@@ -199,6 +239,36 @@ func parseCase(input string) (c caseIn, err error) {
 		c.mode = "seq"
 	}
 	c.preload = m["pre"] == "1"
+	c.idle, c.hs, c.rht, c.mic, c.mich = optOr(m["idle"]), optOr(m["hs"]), optOr(m["rht"]), optOr(m["mic"]), optOr(m["mich"])
+	c.code = 200
+	for _, f := range []struct {
+		key string
+		dst *int
+		max int
+	}{{"gap", &c.gap, 5000}, {"delay", &c.delay, 5000}, {"code", &c.code, 599}, {"lay", &c.lay, 3}} {
+		if v, ok := m[f.key]; ok {
+			n, e := strconv.Atoi(v)
+			if e != nil || n < 0 || n > f.max {
+				return c, fmt.Errorf("%s", f.key)
+			}
+			*f.dst = n
+		}
+	}
+	if c.code < 200 {
+		return c, fmt.Errorf("code")
+	}
+	for _, o := range []string{c.idle, c.rht, c.mic, c.mich} {
+		if o != "-" {
+			if n, e := strconv.Atoi(o); e != nil || n < -100000 || n > 1000000 {
+				return c, fmt.Errorf("option value")
+			}
+		}
+	}
+	if c.hs != "-" && c.hs != "def" {
+		if n, e := strconv.Atoi(c.hs); e != nil || n < 1 || n > 1000000 {
+			return c, fmt.Errorf("hs")
+		}
+	}
 	for _, g := range splitList(m["sched"], ".") {
 		n, e := strconv.Atoi(g)
 		if e != nil || n < 0 {
@@ -300,8 +370,11 @@ func jsonStr(s string) string {
 
 // tagOf: uri/uripost entries with an odd index carry a tag
 func tagOf(i int) string {
-	if i%2 == 1 {
+	switch i % 4 {
+	case 1:
 		return " tag" + strconv.Itoa(i)
+	case 3:
+		return " tag" + strconv.Itoa(i) + " with /blanks and?more" // the tag is the rest of the line
 	}
 	return ""
 }
@@ -309,22 +382,40 @@ func tagOf(i int) string {
 // render returns the ammo file and whether the entries can be expressed in the format at all.
 func render(c caseIn) ([]byte, bool) {
 	var b bytes.Buffer
+	nl := "\n"
+	if c.lay == 3 {
+		nl = "\r\n"
+	}
+	// line writes one line of the file in the case's layout
+	line := func(l string) {
+		if c.lay == 1 {
+			l = "  " + l + " \t"
+		}
+		b.WriteString(l + nl)
+	}
+	between := func(i int) {
+		if c.lay == 1 && i > 0 {
+			b.WriteString(nl + "   " + nl)
+		}
+	}
 	switch c.format {
 	case "uri":
 		for i, e := range c.ents {
+			between(i)
 			for _, h := range e.hdrs {
-				fmt.Fprintf(&b, "[%s:%s]\n", h.k, h.v)
+				line(fmt.Sprintf("[%s:%s]", h.k, h.v))
 			}
-			b.WriteString(e.uri + tagOf(i) + "\n")
+			line(e.uri + tagOf(i))
 		}
 	case "uripost":
 		for i, e := range c.ents {
+			between(i)
 			for _, h := range e.hdrs {
-				fmt.Fprintf(&b, "[%s:%s]\n", h.k, h.v)
+				line(fmt.Sprintf("[%s:%s]", h.k, h.v))
 			}
-			fmt.Fprintf(&b, "%d %s%s\n", len(e.body), e.uri, tagOf(i))
+			line(fmt.Sprintf("%d %s%s", len(e.body), e.uri, tagOf(i)))
 			b.WriteString(e.body)
-			b.WriteString("\n")
+			b.WriteString(nl)
 		}
 	case "jsonline", "jsonarr":
 		var items []string
@@ -339,16 +430,28 @@ func render(c caseIn) ([]byte, bool) {
 				}
 				hs = append(hs, jsonStr(h.k)+":"+jsonStr(h.v))
 			}
-			items = append(items, fmt.Sprintf(`{"host":%s,"method":%s,"uri":%s,"headers":{%s},"tag":"t","body":%s}`,
-				jsonStr(e.host), jsonStr(e.method), jsonStr(e.uri), strings.Join(hs, ","), jsonStr(e.body)))
+			item := fmt.Sprintf(`{"host":%s,"method":%s,"uri":%s,"headers":{%s},"tag":"t","body":%s}`,
+				jsonStr(e.host), jsonStr(e.method), jsonStr(e.uri), strings.Join(hs, ","), jsonStr(e.body))
+			if c.lay == 3 { // one entry over several lines
+				var ind bytes.Buffer
+				if json.Indent(&ind, []byte(item), "", "  ") == nil {
+					item = ind.String()
+				}
+			}
+			items = append(items, item)
+		}
+		sep := "\n"
+		if c.lay == 1 {
+			sep = "\n\n  \n"
 		}
 		if c.format == "jsonline" {
-			b.WriteString(strings.Join(items, "\n") + "\n")
+			b.WriteString(strings.Join(items, sep) + "\n")
 		} else {
-			b.WriteString("[" + strings.Join(items, ",\n") + "]\n")
+			b.WriteString("[" + strings.Join(items, ","+sep) + "]\n")
 		}
 	case "raw":
-		for _, e := range c.ents {
+		for i, e := range c.ents {
+			between(i)
 			var r bytes.Buffer
 			fmt.Fprintf(&r, "%s %s HTTP/1.%d\r\n", e.method, e.uri, e.minor)
 			for _, h := range e.hdrs {
@@ -359,12 +462,20 @@ func render(c caseIn) ([]byte, bool) {
 			}
 			r.WriteString("\r\n")
 			r.WriteString(e.body)
-			fmt.Fprintf(&b, "%d tag\n", r.Len())
+			line(fmt.Sprintf("%d tag", r.Len()))
 			b.Write(r.Bytes())
-			b.WriteString("\n")
+			b.WriteString(nl)
 		}
 	}
-	return b.Bytes(), true
+	out := b.Bytes()
+	if c.lay == 2 {
+		out = bytes.TrimRight(out, "\r\n")
+		if c.format == "uripost" || c.format == "raw" {
+			// the body of the last entry may itself end in line ends: keep them, drop only the file's own last line end
+			out = b.Bytes()[:b.Len()-len(nl)]
+		}
+	}
+	return out, true
 }
 
 // ---------------------------------------------------------------- recording target
@@ -479,12 +590,18 @@ func newTarget(c caseIn) (*target, error) {
 		t.reqs = append(t.reqs, recorded{method: r.Method, uri: r.RequestURI, host: r.Host, tls: r.TLS != nil,
 			major: r.ProtoMajor, header: r.Header.Clone(), body: body, conn: id})
 		t.mu.Unlock()
+		if c.delay > 0 {
+			time.Sleep(time.Duration(c.delay) * time.Millisecond)
+		}
 		if t.decoy != nil {
 			http.Redirect(w, r, t.decoy.URL+"/decoy", http.StatusFound)
 			return
 		}
 		w.Header().Set("Content-Type", "text/plain")
-		_, _ = w.Write(rspBody)
+		if c.code != 200 && c.code != 0 {
+			w.WriteHeader(c.code)
+		}
+		_, _ = w.Write(rspBody) // refused by net/http for the statuses that carry no body
 	})
 	srv := httptest.NewUnstartedServer(h)
 	if v6 {
@@ -530,7 +647,13 @@ type errAggregator struct {
 	// net: a shot failed below HTTP (dial, reset, EOF, TLS) — expected when the scheme does not fit the target, otherwise
 	// the case is run again: a transient trouble of the machine disappears, a defect of the code does not
 	net string
+	// the case asks for it: response-header-timeout shorter than the target's delay
+	expectRHT bool
+	// a response-header-timeout is configured at all (only then can a slow machine run into it)
+	haveRHT bool
 }
+
+const rhtMsg = "timeout awaiting response headers"
 
 var envErrors = []string{"cannot assign requested address", "too many open files", "i/o timeout", "handshake timeout",
 	"context deadline exceeded", "no buffer space", "connection timed out", "Timeout exceeded"}
@@ -544,6 +667,17 @@ func (a *errAggregator) Report(s core.Sample) {
 	msg := ns.Err().Error()
 	if os.Getenv("C09_DEBUG_ERRS") != "" {
 		fmt.Fprintln(os.Stderr, "shot error:", msg)
+	}
+	if strings.Contains(msg, rhtMsg) {
+		if a.expectRHT {
+			return
+		}
+		if a.haveRHT {
+			a.mu.Lock()
+			a.env = "response-header-timeout"
+			a.mu.Unlock()
+		}
+		// without a configured timeout the error is no trouble of the machine: it is reported like any other failed shot
 	}
 	if !strings.HasPrefix(msg, "net/http: invalid header field") {
 		a.mu.Lock()
@@ -570,6 +704,12 @@ func runCase(input string) string {
 	obs := ""
 	for attempt := 0; attempt < 3; attempt++ {
 		agg := &errAggregator{}
+		if perr == nil && c.rht != "-" {
+			if v, _ := strconv.Atoi(c.rht); v > 0 {
+				agg.haveRHT = true
+				agg.expectRHT = c.delay >= v
+			}
+		}
 		obs = runWith(input, agg)
 		agg.mu.Lock()
 		env, neterr := agg.env, agg.net
@@ -635,6 +775,27 @@ func runWith(input string, agg *errAggregator) string {
 	if !c.ka {
 		gunCfg["disable-keep-alives"] = true
 	}
+	// round 2: the transport's options, by their documented names
+	ms := func(v string) string { return v + "ms" }
+	switch c.hs {
+	case "-":
+	case "def":
+		delete(gunCfg, "tls-handshake-timeout")
+	default:
+		gunCfg["tls-handshake-timeout"] = ms(c.hs)
+	}
+	if c.idle != "-" {
+		gunCfg["idle-conn-timeout"] = ms(c.idle)
+	}
+	if c.rht != "-" {
+		gunCfg["response-header-timeout"] = ms(c.rht)
+	}
+	if c.mic != "-" {
+		gunCfg["max-idle-conns"], _ = strconv.Atoi(c.mic)
+	}
+	if c.mich != "-" {
+		gunCfg["max-idle-conns-per-host"], _ = strconv.Atoi(c.mich)
+	}
 	var pool struct {
 		Provider core.Provider            `config:"ammo"`
 		NewGun   func() (core.Gun, error) `config:"gun"`
@@ -671,13 +832,46 @@ func runWith(input string, agg *errAggregator) string {
 	}
 	shots := 0
 	gunPanic := ""
+	// timing margins (tm=late): see the head comment
+	idleMs, rhtMs := 90000, 0
+	if c.idle != "-" {
+		idleMs, _ = strconv.Atoi(c.idle)
+	}
+	if c.rht != "-" {
+		rhtMs, _ = strconv.Atoi(c.rht)
+	}
+	var late atomic.Bool
+	prevStart := make([]time.Time, c.inst)
+	prevIdx := make([]int, c.inst)
+	for i := range prevIdx {
+		prevIdx[i] = -1
+	}
+	gap := time.Duration(c.gap) * time.Millisecond
+	// timedShoot: gun g shoots its shot number idx (seq: index in the case, par: index among the gun's own shots)
+	timedShoot := func(g, idx int, a core.Ammo) {
+		start := time.Now()
+		if prevIdx[g] >= 0 && idleMs > 0 {
+			nominal := (idx - prevIdx[g]) * c.gap
+			if nominal < idleMs && start.Sub(prevStart[g]) > time.Duration(idleMs)*time.Millisecond*6/10 {
+				late.Store(true)
+			}
+		}
+		prevStart[g], prevIdx[g] = start, idx
+		guns[g].Shoot(a)
+		if rhtMs > 0 && c.delay < rhtMs && time.Since(start) > time.Duration(rhtMs)*time.Millisecond*6/10 {
+			late.Store(true)
+		}
+	}
 	if c.mode == "seq" {
 		for {
 			a, ok := pool.Provider.Acquire()
 			if !ok {
 				break
 			}
-			guns[gunOf(shots)].Shoot(a)
+			if shots > 0 && gap > 0 {
+				time.Sleep(gap)
+			}
+			timedShoot(gunOf(shots), shots, a)
 			pool.Provider.Release(a)
 			shots++
 			if shots > 64 {
@@ -710,8 +904,11 @@ func runWith(input string, agg *errAggregator) string {
 						pmu.Unlock()
 					}
 				}()
-				for _, a := range share[i] {
-					guns[i].Shoot(a)
+				for k, a := range share[i] {
+					if k > 0 && gap > 0 {
+						time.Sleep(gap)
+					}
+					timedShoot(i, k, a)
 					pool.Provider.Release(a)
 				}
 			}(i)
@@ -796,8 +993,12 @@ func runWith(input string, agg *errAggregator) string {
 			}
 		}
 	}
-	return fmt.Sprintf("n=%d shots=%d conns=%d run=%s tun=%s decoy=%d reqs=%s", len(reqs), shots, len(conns), run, tun,
-		tg.decoyN.Load(), strings.Join(rs, "|"))
+	tm := "ok"
+	if late.Load() {
+		tm = "late"
+	}
+	return fmt.Sprintf("n=%d shots=%d conns=%d run=%s tun=%s decoy=%d tm=%s reqs=%s", len(reqs), shots, len(conns), run, tun,
+		tg.decoyN.Load(), tm, strings.Join(rs, "|"))
 }
 
 func c09Run(input string) string {
@@ -971,6 +1172,40 @@ func genCase(r *rand.Rand, malformed bool) caseIn {
 	c.passes = 1
 	if r.Intn(5) == 0 {
 		c.passes = 2
+	}
+	if r.Intn(3) == 0 {
+		c.lay = 1 + r.Intn(3)
+	}
+	// round 2: answer status and transport options (no pauses here: see timedCases)
+	if c.rsp != "redir" && r.Intn(4) == 0 {
+		c.code = []int{404, 500, 201, 204, 304, 503, 400}[r.Intn(7)]
+	}
+	if r.Intn(6) == 0 {
+		switch r.Intn(6) {
+		case 0:
+			c.idle = []string{"60000", "0", "-1000", "5000"}[r.Intn(4)]
+			if c.gun == "http2" && c.idle == "-1000" {
+				c.idle = "45000" // x/net/http2 arms its idle timer with a negative timeout too: outside
+			}
+		case 1:
+			if c.gun != "http2" { // x/net/http2 arms its timers with negative timeouts too: outside
+				c.rht = []string{"20000", "0", "-5"}[r.Intn(3)]
+			}
+		case 2:
+			if c.gun != "http2" {
+				c.mich = []string{"-1", "1", "5", "0"}[r.Intn(4)]
+			}
+		case 3:
+			if c.gun != "http2" {
+				c.mic = []string{"-1", "1", "7", "0"}[r.Intn(4)]
+			}
+		case 4:
+			if c.srv == "plain" {
+				c.hs = []string{"def", "1", "250"}[r.Intn(3)]
+			}
+		case 5:
+			c.idle, c.hs = "30000", "20000"
+		}
 	}
 	nEnt := 1 + r.Intn(4)
 	if c.format == "jsonarr" && nEnt < 2 {
@@ -1265,6 +1500,89 @@ func enumConns(inst, length int) []string {
 	return out
 }
 
+// timedCases: the TIME dimension and the transport's options. Every case pauses between the shots of a gun (or lets the target
+// answer late), so that the transport's timeouts decide about connection reuse: with nothing configured the idle connections live
+// 90s and a pause of a second changes nothing; idle-conn-timeout below the pause costs a connection per request;
+// tls-handshake-timeout (alone or together with the others) has no say; response-header-timeout below the target's delay loses the
+// answer and the connection. The margins are a factor >= 2.5 either side; n cases, templates cycled, the rest random.
+func timedCases(r *rand.Rand, n int) []string {
+	type tpl struct {
+		gap, delay    int
+		idle, hs, rht string
+		mic, mich     string
+		inst, shots   int
+		mode          string
+		plainOnly     bool
+	}
+	tpls := []tpl{
+		{gap: 1200, hs: "def", inst: 1, shots: 2, plainOnly: true},                 // all defaults: 1s < pause < 90s
+		{gap: 800, hs: "300", inst: 1, shots: 2, plainOnly: true},                  // short handshake timeout, default idle timeout
+		{gap: 800, idle: "300", inst: 1, shots: 3},                                 // the operator's own short idle timeout
+		{gap: 150, idle: "2000", inst: 2, shots: 4},                                // idle timeout well above the pauses
+		{delay: 900, rht: "300", inst: 1, shots: 2},                                // answers later than response-header-timeout
+		{delay: 100, rht: "2500", inst: 1, shots: 3},                               // answers in time
+		{gap: 700, hs: "250", inst: 2, shots: 4, mode: "par", plainOnly: true},     // parallel instances, each pausing
+		{gap: 600, idle: "0", hs: "200", inst: 1, shots: 2, plainOnly: true},       // idle timeout 0 = no limit
+		{gap: 500, idle: "200", rht: "5000", inst: 2, shots: 4},                    // both timeouts given
+		{gap: 400, idle: "-1000", inst: 1, shots: 2},                               // negative = no limit
+		{gap: 900, hs: "300", rht: "20000", inst: 1, shots: 2, plainOnly: true},    // three different timeouts
+		{gap: 300, mich: "-1", inst: 1, shots: 3},                                  // no idle connections kept
+		{gap: 300, mic: "-1", inst: 1, shots: 3},
+		{gap: 700, mich: "1", mic: "1", hs: "300", inst: 2, shots: 4, plainOnly: true},
+		{gap: 1300, hs: "def", inst: 2, shots: 4, mode: "par", plainOnly: true},    // defaults again, parallel
+		{gap: 450, delay: 450, idle: "300", rht: "150", inst: 1, shots: 2},         // both bite
+		{delay: 1250, hs: "def", inst: 1, shots: 2, plainOnly: true},               // a slow target, all defaults: no timeout applies
+	}
+	var out []string
+	for i := 0; i < n; i++ {
+		t := tpls[i%len(tpls)]
+		c := caseIn{ka: true, inst: t.inst, tgt: "127.0.0.1", passes: 1, mode: t.mode, gap: t.gap, delay: t.delay,
+			idle: t.idle, hs: t.hs, rht: t.rht, mic: t.mic, mich: t.mich, rsp: []string{"2", "700", "5000"}[r.Intn(3)]}
+		c.format = []string{"uri", "uripost", "jsonline", "jsonarr", "raw"}[r.Intn(5)]
+		c.gun = []string{"http", "http", "connect", "http2"}[r.Intn(4)]
+		if t.mic != "" || t.mich != "" || t.rht != "" || strings.HasPrefix(t.idle, "-") {
+			if c.gun == "http2" {
+				c.gun = "http"
+			}
+		}
+		c.ssl = !t.plainOnly && r.Intn(2) == 0
+		if c.gun == "http2" {
+			if t.plainOnly {
+				c.gun = "http"
+			} else {
+				c.ssl = true
+			}
+		}
+		c.srv = map[bool]string{true: "tls", false: "plain"}[c.ssl]
+		if i >= len(tpls) && r.Intn(6) == 0 {
+			c.ka = false
+		}
+		if i >= len(tpls) && r.Intn(4) == 0 {
+			c.code = []int{404, 500, 204}[r.Intn(3)]
+		}
+		if t.inst > 1 && t.mode == "" && r.Intn(2) == 0 {
+			for j := 0; j < t.shots; j++ {
+				c.sched = append(c.sched, r.Intn(t.inst))
+			}
+		}
+		for j := 0; j < t.shots; j++ {
+			e := entry{method: "GET", uri: "/t" + strconv.Itoa(i) + "/" + strconv.Itoa(j), minor: j % 2}
+			switch c.format {
+			case "uri":
+			case "uripost":
+				e.method, e.body = "POST", "b"+strconv.Itoa(j)
+			default:
+				if j%2 == 1 {
+					e.method, e.body = "POST", "body"
+				}
+			}
+			c.ents = append(c.ents, e)
+		}
+		out = append(out, encodeCase(c))
+	}
+	return out
+}
+
 // every k-th element, starting at off
 func sample(l []string, k, off int) []string {
 	var out []string
@@ -1275,7 +1593,13 @@ func sample(l []string, k, off int) []string {
 }
 
 func c09Gen(r *rand.Rand, tier string) []string {
-	out := matrix()
+	// the cases that pause come first: they cost wall time, not CPU, and overlap with everything after them
+	nTimed := 21
+	if tier == "thorough" {
+		nTimed = 240
+	}
+	out := timedCases(r, nTimed)
+	out = append(out, matrix()...)
 	n, nMal, nCanon := 2200, 300, 500
 	if tier == "thorough" {
 		n, nMal, nCanon = 50000, 6000, 15000
@@ -1336,7 +1660,20 @@ func c09Class(in, obs string) string {
 	}
 	ka := map[bool]string{true: "ka", false: "noka"}[c.ka]
 	ssl := map[bool]string{true: "https", false: "http"}[c.ssl]
-	return strings.Join([]string{c.gun, c.format, collide, ssl, ka, c.mode}, "/")
+	cl := strings.Join([]string{c.gun, c.format, collide, ssl, ka, c.mode}, "/")
+	if c.gap > 0 || c.delay > 0 {
+		cl += "/timed"
+	}
+	if c.idle != "-" || c.hs != "-" || c.rht != "-" || c.mic != "-" || c.mich != "-" {
+		cl += "/transport-options"
+	}
+	if c.code != 200 {
+		cl += "/status-" + strconv.Itoa(c.code/100) + "xx"
+	}
+	if c.lay != 0 {
+		cl += "/layout" + strconv.Itoa(c.lay)
+	}
+	return cl
 }
 
 func main() {
